@@ -350,8 +350,16 @@ def arrays(spec):
     return tn, td, sn, pn
 
 
-def build(spec, control, treatment_mapping=None, sample_mapping=None, **kw):
-    tn, td, sn, pn = arrays(spec)
+def _layout(a, memory):
+    if memory == "F" and a.ndim == 2:
+        return np.asfortranarray(a)
+    if memory == "strided":
+        return np.repeat(a, 2, axis=0)[::2]
+    return a
+
+
+def build(spec, control, treatment_mapping=None, sample_mapping=None, memory=None, **kw):
+    tn, td, sn, pn = (_layout(a, memory) for a in arrays(spec))
     return Screen(
         treatment_names=tn,
         treatment_doses=td,
@@ -504,7 +512,7 @@ def run_case(case, col, verbose=False):
         col.evaluations += 1
         col.transitions += 1
         try:
-            s = build(spec, control)
+            s = build(spec, control, memory=case.get("memory"))
         except Exception as exc:  # noqa: BLE001
             col.refused += 1
             col.outcome("screen", "refused", type(exc).__name__)
@@ -518,6 +526,16 @@ def run_case(case, col, verbose=False):
             print("treatment_ids", np.asarray(s.treatment_ids).tolist(), "mapping", [np.asarray(x).tolist() for x in s.treatment_mapping])
             print("sample_ids", np.asarray(s.sample_ids).tolist(), "plate_ids", np.asarray(s.plate_ids).tolist())
         _flag(col, case, res, _describe(spec, control))
+        # the same rows handed over as column-major / strided arrays must be encoded identically
+        if arity >= 2 and len(spec["tn"]) >= 2 and case.get("memory") is None:
+            for mem in (("F", "strided") if _TIER["tier"] == "thorough" else ("F",)):
+                col.evaluations += 1
+                try:
+                    s2 = build(spec, control, memory=mem)
+                except Exception as exc:  # noqa: BLE001
+                    col.violation("C01|layout|raised", f"{_describe(spec, control)} given as {mem} arrays: constructor raised {short_exc(exc)}", dict(case, memory=mem))
+                    continue
+                _flag(col, dict(case, memory=mem), judge_screen(spec, control, s2), _describe(spec, control) + f" (arrays in {mem} layout)")
         return
 
     # mapping cases: the mapping source is a real screen built by batchie
@@ -601,7 +619,11 @@ def _nondense_cases(spec, control, tm_ids, sm_ids):
                        "mapping": {"type": "nondense", "which": which, "how": how, "source": spec}}
 
 
+_TIER = {"tier": "quick"}
+
+
 def run_item(item, col, tier):
+    _TIER["tier"] = tier
     k = item["k"]
     if k == "enc1d":
         first = True
